@@ -416,7 +416,45 @@ def h_untilev(cfg):
     cover('nontrivial')
 
 
-HARNESSES = {'untilev': h_untilev, 'split': h_split, 'initial': h_initial, 'net': h_net, 'netmon': h_netmon}
+def h_hubnet(cfg):
+    """hub with string element ids: the order in which one packet reaches the endpoints within an instant is part of the
+    observable trace (compared across interpreter processes with different string-hash seeds)"""
+    from onl.sim import Environment
+    from onl.packet import Packet
+    from onl.netdev import Hub
+    env = Environment()
+    order = []
+
+    class End:
+        def __init__(self, name):
+            self.element_id = name
+            self.out = None
+
+        def put(self, p):
+            order.append((self.element_id, p.packet_id, env.now))
+
+    names = cfg['names']
+    ends = [End(n) for n in names]
+    hub = Hub(env, ends)
+
+    def src():
+        for k in range(cfg['n']):
+            yield env.timeout(sym_num('g%d' % k, 'int', 0))
+            hub.put(Packet(env.now, sym_int('s%d' % k, 1), k, src=names[k % len(names)]))
+
+    env.process(src())
+    try:
+        env.run()
+    except Exception as ex:  # noqa
+        fail('no-raise', '%s: %s' % (type(ex).__name__, ex))
+        return
+    check('c03.hub-deliveries', len(order) == cfg['n'] * (len(names) - 1))
+    for o in order:
+        obs('deliv', o[0], o[1], o[2])
+    cover('nontrivial')
+
+
+HARNESSES = {'hubnet': h_hubnet, 'untilev': h_untilev, 'split': h_split, 'initial': h_initial, 'net': h_net, 'netmon': h_netmon}
 
 PLANS = [
     [['until', 1]], [['until', 2], ['until', 3]], [['step', 1], ['until', 2]], [['step', 3]],
@@ -451,6 +489,7 @@ def jobs(tier, seed):
         js.append({'harness': 'initial', 'cfg': {'sorts': 'int', 'c': c, 'base': 2 ** 53}})
     for plan in ([['until', 1], ['until', 2]], [['step', 2], ['until', 3]], [['until', 2], ['step', 3]]):
         js.append({'harness': 'net', 'cfg': {'n': 2, 'sorts': 'int', 'plan': plan}, 'weight': 300})
+    js.append({'harness': 'hubnet', 'cfg': {'names': ['alpha', 'bravo', 'charlie', 'delta-4', 'e'], 'n': 2}, 'weight': 5})
     for what in ('and', 'or', 'fail'):
         for sorts in ('int', 'real'):
             js.append({'harness': 'untilev', 'cfg': {'what': what, 'sorts': sorts}, 'weight': 20})
@@ -470,6 +509,7 @@ def extra_checks(tier, seed):
     is identical in fresh interpreters under different PYTHONHASHSEED values"""
     here = os.path.dirname(os.path.dirname(os.path.abspath(__file__)))
     js = [j for j in _split_jobs(tier, seed) if j['weight'] <= 300][: (4 if tier == 'quick' else 12)]
+    js.append({'harness': 'hubnet', 'cfg': {'names': ['alpha', 'bravo', 'charlie', 'delta-4', 'e'], 'n': 2}, 'weight': 1})
     seeds = ['0', str(1 + (int(seed) * 7919 + 13) % 4000000)] + (['12345', '987654321'] if tier != 'quick' else [])
     procs = []
     for ji, j in enumerate(js):
